@@ -465,6 +465,10 @@ func runOnce(s *Scenario, c Component, n int, prefix []int, cut int) []vsched.Ch
 	for _, k := range vsched.AccKind {
 		fmt.Fprintf(out, " %d", k)
 	}
+	fmt.Fprintf(out, "\nL")
+	for _, k := range vsched.AccLoc {
+		fmt.Fprintf(out, " %d", k)
+	}
 	fmt.Fprintf(out, "\nC")
 	for _, ch := range tr {
 		fmt.Fprintf(out, " %d", ch.Pick)
